@@ -218,10 +218,20 @@ func (e alert) Error() string { return "" }
 // non-nil data is never nil, so the difference can only show on `cryptobyte.String(nil)` / a zero String.
 var codecWanted = map[string][]string{
 	"tlcp": {"readUint8LengthPrefixed", "readUint16LengthPrefixed", "readUint24LengthPrefixed", "readUint64", "tlcpIsCompleteMessage",
-		"clientHelloMsg.unmarshal", "serverHelloMsg.unmarshal", "finishedMsg.unmarshal", "certificateVerifyMsg.unmarshal"},
+		"clientHelloMsg.unmarshal", "serverHelloMsg.unmarshal", "finishedMsg.unmarshal", "certificateVerifyMsg.unmarshal",
+		"clientHelloMsg.marshal", "serverHelloMsg.marshal", "finishedMsg.marshal", "certificateVerifyMsg.marshal",
+		"certificateMsg.marshal", "serverKeyExchangeMsg.marshal", "clientKeyExchangeMsg.marshal", "serverHelloDoneMsg.marshal"},
+	// (certificateRequestMsg.marshal writes the message through a moving window `y := x[k:]` of the result: value
+	// semantics cannot express that and the alias analysis refuses it; it stays with model + correspondence)
 	"dtlcp": {"readUint8LengthPrefixed", "readUint16LengthPrefixed", "readUint24LengthPrefixed", "readUint64", "dtlcpIsCompleteMessage",
 		"dtlcpUnmarshalHeader", "clientHelloMsg.unmarshal", "serverHelloMsg.unmarshal", "helloVerifyRequestMsg.unmarshal",
-		"finishedMsg.unmarshal", "certificateVerifyMsg.unmarshal"},
+		"finishedMsg.unmarshal", "certificateVerifyMsg.unmarshal",
+		"dtlcpWriteHeader", "dtlcpMarshalHeader",
+		"clientHelloMsg.messageType", "serverHelloMsg.messageType", "helloVerifyRequestMsg.messageType", "finishedMsg.messageType",
+		"certificateVerifyMsg.messageType", "certificateMsg.messageType", "serverKeyExchangeMsg.messageType",
+		"clientKeyExchangeMsg.messageType", "serverHelloDoneMsg.messageType",
+		"clientHelloMsg.marshal", "serverHelloMsg.marshal", "helloVerifyRequestMsg.marshal", "finishedMsg.marshal", "certificateVerifyMsg.marshal",
+		"certificateMsg.marshal", "serverKeyExchangeMsg.marshal", "clientKeyExchangeMsg.marshal", "serverHelloDoneMsg.marshal"},
 }
 
 const cbStubs = `
@@ -300,6 +310,65 @@ func (s *cbString) ReadBytes(out *[]byte, n int) bool {
 	return true
 }
 func (s cbString) Empty() bool { return len(s) == 0 }
+
+// cryptobyte.Builder: the bytes so far and "an error was recorded" (after which additions are ignored and
+// Bytes() fails).  X.AddUintNLengthPrefixed(func(b){…}) is rewritten (see rewriteDynCases) to: build the
+// continuation's bytes in a child, then X.addLengthPrefixed(N/8, child).
+type cbBuilder struct {
+	err    bool
+	result []byte
+}
+
+func (b *cbBuilder) add(bytes []byte) {
+	if b.err {
+		return
+	}
+	b.result = append(b.result, bytes...)
+}
+func (b *cbBuilder) AddUint8(v uint8)   { b.add([]byte{v}) }
+func (b *cbBuilder) AddUint16(v uint16) { b.add([]byte{byte(v >> 8), byte(v)}) }
+func (b *cbBuilder) AddUint24(v uint32) { b.add([]byte{byte(v >> 16), byte(v >> 8), byte(v)}) }
+func (b *cbBuilder) AddUint32(v uint32) { b.add([]byte{byte(v >> 24), byte(v >> 16), byte(v >> 8), byte(v)}) }
+func (b *cbBuilder) AddBytes(v []byte)  { b.add(v) }
+func (b *cbBuilder) setErr()            { b.err = true }
+func (b *cbBuilder) addLengthPrefixed(lenLen int, child cbBuilder) {
+	if b.err {
+		return
+	}
+	if child.err {
+		b.err = true
+		return
+	}
+	n := len(child.result)
+	if (lenLen == 1 && n > 0xff) || (lenLen == 2 && n > 0xffff) || (lenLen == 3 && n > 0xffffff) {
+		b.err = true // cryptobyte: pending child length exceeds the length prefix
+		return
+	}
+	if lenLen >= 3 {
+		b.result = append(b.result, byte(n>>16))
+	}
+	if lenLen >= 2 {
+		b.result = append(b.result, byte(n>>8))
+	}
+	b.result = append(b.result, byte(n))
+	b.result = append(b.result, child.result...)
+}
+func (b *cbBuilder) Bytes() ([]byte, error) {
+	if b.err {
+		return nil, errOpaque
+	}
+	return b.result, nil
+}
+
+// addBytesWithLength: b.AddValue(marshalingFunction(func(b) error { if len(v) != n { return err }; b.AddBytes(v); return nil }))
+// — AddValue records the error the function returns (checked against the real text by checkViews)
+func addBytesWithLength(b *cbBuilder, v []byte, n int) {
+	if len(v) != n {
+		b.setErr()
+		return
+	}
+	b.AddBytes(v)
+}
 `
 
 // negStubs / negWanted: parameter negotiation (C01): version and ALPN selection over a view of Config
@@ -563,7 +632,7 @@ func synth(d *decls, pkgName string, fns []string) (*token.FileSet, *ast.File, *
 // rewriteDynCases re-parses one function and replaces the case types of its type switches by
 // the stub types that stand for them (dynCases)
 func rewriteDynCases(src string) string {
-	if !strings.Contains(src, ".(type)") && !strings.Contains(src, "io.ReadFull(") && !strings.Contains(src, "cryptobyte.String") {
+	if !strings.Contains(src, ".(type)") && !strings.Contains(src, "io.ReadFull(") && !strings.Contains(src, "cryptobyte.") {
 		return src
 	}
 	fset := token.NewFileSet()
@@ -577,6 +646,9 @@ func rewriteDynCases(src string) string {
 		if se, ok := (*e).(*ast.SelectorExpr); ok {
 			if id, ok := se.X.(*ast.Ident); ok && id.Name == "cryptobyte" && se.Sel.Name == "String" {
 				*e = &ast.Ident{Name: "cbString", NamePos: se.Pos()}
+			}
+			if id, ok := se.X.(*ast.Ident); ok && id.Name == "cryptobyte" && se.Sel.Name == "Builder" {
+				*e = &ast.Ident{Name: "cbBuilder", NamePos: se.Pos()}
 			}
 		}
 	}
@@ -602,6 +674,97 @@ func rewriteDynCases(src string) string {
 		}
 		return true
 	})
+	// X.AddUintNLengthPrefixed(func(P *cbBuilder) { BODY })  ==>
+	//     { var cbChildK cbBuilder; BODY[P := (&cbChildK)]; X.addLengthPrefixed(N/8, cbChildK) }
+	// (innermost first; the library runs the continuation on a child that writes behind a length prefix
+	// which is filled in afterwards: building the child first and prefixing it is the same bytes)
+	childN := 0
+	var rewriteList func(list []ast.Stmt)
+	var rewriteStmt func(st ast.Stmt) ast.Stmt
+	renameIdent := func(body *ast.BlockStmt, from string, to func() ast.Expr) {
+		var walk func(n ast.Node) bool
+		walk = func(n ast.Node) bool {
+			switch x := n.(type) {
+			case *ast.SelectorExpr:
+				if id, ok := x.X.(*ast.Ident); ok && id.Name == from {
+					x.X = to()
+					return false
+				}
+				ast.Inspect(x.X, walk)
+				return false
+			case *ast.CallExpr:
+				for i, a := range x.Args {
+					if id, ok := a.(*ast.Ident); ok && id.Name == from {
+						x.Args[i] = to()
+					}
+				}
+			}
+			return true
+		}
+		ast.Inspect(body, walk)
+	}
+	rewriteStmt = func(st ast.Stmt) ast.Stmt {
+		es, ok := st.(*ast.ExprStmt)
+		if !ok {
+			return st
+		}
+		c, ok := es.X.(*ast.CallExpr)
+		if !ok || len(c.Args) != 1 {
+			return st
+		}
+		se, ok := c.Fun.(*ast.SelectorExpr)
+		if !ok {
+			return st
+		}
+		width := map[string]string{"AddUint8LengthPrefixed": "1", "AddUint16LengthPrefixed": "2", "AddUint24LengthPrefixed": "3"}[se.Sel.Name]
+		fl, isLit := c.Args[0].(*ast.FuncLit)
+		if width == "" || !isLit || len(fl.Type.Params.List) != 1 || len(fl.Type.Params.List[0].Names) != 1 {
+			return st
+		}
+		rewriteList(fl.Body.List) // innermost first
+		childN++
+		child := fmt.Sprintf("cbChild%d", childN)
+		pname := fl.Type.Params.List[0].Names[0].Name
+		renameIdent(fl.Body, pname, func() ast.Expr {
+			return &ast.ParenExpr{X: &ast.UnaryExpr{Op: token.AND, X: &ast.Ident{Name: child}}}
+		})
+		decl := &ast.DeclStmt{Decl: &ast.GenDecl{Tok: token.VAR, Specs: []ast.Spec{&ast.ValueSpec{
+			Names: []*ast.Ident{{Name: child}}, Type: &ast.Ident{Name: "cbBuilder"}}}}}
+		flush := &ast.ExprStmt{X: &ast.CallExpr{
+			Fun:  &ast.SelectorExpr{X: se.X, Sel: &ast.Ident{Name: "addLengthPrefixed"}},
+			Args: []ast.Expr{&ast.BasicLit{Kind: token.INT, Value: width}, &ast.Ident{Name: child}}}}
+		blk := &ast.BlockStmt{List: append(append([]ast.Stmt{decl}, fl.Body.List...), flush)}
+		return blk
+	}
+	rewriteList = func(list []ast.Stmt) {
+		for i, st := range list {
+			// descend into compound statements first
+			ast.Inspect(st, func(n ast.Node) bool {
+				switch x := n.(type) {
+				case *ast.FuncLit:
+					return false // handled when its call is rewritten
+				case *ast.BlockStmt:
+					if n != st {
+						rewriteList(x.List)
+						return false
+					}
+				case *ast.CaseClause:
+					rewriteList(x.Body)
+					return false
+				}
+				return true
+			})
+			if b, ok := st.(*ast.BlockStmt); ok {
+				rewriteList(b.List)
+			}
+			list[i] = rewriteStmt(st)
+		}
+	}
+	for _, dc := range f.Decls {
+		if fd, ok := dc.(*ast.FuncDecl); ok && fd.Body != nil && strings.Contains(src, "LengthPrefixed(func(") {
+			rewriteList(fd.Body.List)
+		}
+	}
 	ast.Inspect(f, func(n ast.Node) bool {
 		// io.ReadFull(r, buf)  ==>  r.readFull(buf)   (the stub method that spells the library loop out)
 		if c, ok := n.(*ast.CallExpr); ok && len(c.Args) == 2 {
@@ -1819,6 +1982,11 @@ func (t *tr) assign(o *out, lhs ast.Expr, rhs string) {
 	case *ast.ParenExpr:
 		t.assign(o, l.X, rhs)
 		return
+	case *ast.UnaryExpr:
+		if l.Op == token.AND {
+			t.assign(o, l.X, rhs)
+			return
+		}
 	case *ast.Ident:
 		if l.Name == "_" {
 			return
@@ -2824,6 +2992,55 @@ func assignsThroughRecv(fd *ast.FuncDecl) bool {
 
 // writtenSliceParams: parameters `p []T` with `p[i] = v`, `p[i] op= v`, `copy(p.., ..)` in the body, or
 // handed to a translated callee at a position the callee writes through (byName: metas so far)
+// structPtrWritten: body assigns through the struct pointer `name` or calls a receiver-assigning method on it
+func (t *tr) structPtrWritten(body ast.Node, name string) bool {
+	rooted := func(e ast.Expr) bool {
+		for {
+			switch x := e.(type) {
+			case *ast.SelectorExpr:
+				e = x.X
+			case *ast.IndexExpr:
+				e = x.X
+			case *ast.SliceExpr:
+				e = x.X
+			case *ast.StarExpr:
+				e = x.X
+			case *ast.ParenExpr:
+				e = x.X
+			case *ast.Ident:
+				return x.Name == name
+			default:
+				return false
+			}
+		}
+	}
+	found := false
+	ast.Inspect(body, func(n ast.Node) bool {
+		switch s := n.(type) {
+		case *ast.AssignStmt:
+			for _, l := range s.Lhs {
+				if _, isId := l.(*ast.Ident); !isId && rooted(l) {
+					found = true
+				}
+			}
+		case *ast.IncDecStmt:
+			if _, isId := s.X.(*ast.Ident); !isId && rooted(s.X) {
+				found = true
+			}
+		case *ast.CallExpr:
+			if f, ok := s.Fun.(*ast.SelectorExpr); ok && rooted(f.X) {
+				if sel := t.info.Selections[f]; sel != nil && sel.Kind() == types.MethodVal {
+					if callee := t.byObj[sel.Obj()]; callee != nil && callee.mutRecv {
+						found = true
+					}
+				}
+			}
+		}
+		return true
+	})
+	return found
+}
+
 func writtenSliceParams(t *tr, m *fnMeta, byName map[string]*fnMeta) []string {
 	var outp []string
 	body := m.bodyOf()
@@ -2835,6 +3052,14 @@ func writtenSliceParams(t *tr, m *fnMeta, byName map[string]*fnMeta) []string {
 					if _, isStruct := pt.Elem().Underlying().(*types.Struct); !isStruct {
 						for _, nm := range p.Names {
 							outp = append(outp, mangle(nm.Name))
+						}
+					} else {
+						// a struct pointer: handed back when the function assigns through it or calls a
+						// receiver-assigning method on it
+						for _, nm := range p.Names {
+							if t.structPtrWritten(body, nm.Name) {
+								outp = append(outp, mangle(nm.Name))
+							}
 						}
 					}
 				}
@@ -3139,7 +3364,7 @@ func allGroups() []group {
 		gs = append(gs, group{pkg: name, stubs: viewStubs[name], funcs: wanted[name]})
 		gs = append(gs, group{pkg: name, sub: "rx", stubs: rxStubs, funcs: rxWanted[name]})
 		gs = append(gs, group{pkg: name, sub: "neg", stubs: negStubs, funcs: negWanted})
-		gs = append(gs, group{pkg: name, sub: "codec", stubs: cbStubs, funcs: codecWanted[name]})
+		gs = append(gs, group{pkg: name, sub: "codec", stubs: cbStubs, funcs: codecWanted[name], nilIsEmpty: true})
 	}
 	return gs
 }
